@@ -6,6 +6,7 @@ package main
 import (
 	"fmt"
 	"go/types"
+	"strings"
 
 	"golang.org/x/tools/go/ssa"
 )
@@ -22,6 +23,17 @@ type Goroutine struct {
 
 type killed struct{}
 
+// SchedSwitch is one baton hand-over of a schedule-symbolic run: goroutine G, at its Occ-th visit
+// of scheduling point At (repo-relative file:line), hands over to Next because it was preempted,
+// blocked or ended.
+type SchedSwitch struct {
+	G    string `json:"g"`
+	At   string `json:"at"`
+	Occ  int    `json:"occ"`
+	Next string `json:"next"`
+	Kind string `json:"kind"`
+}
+
 type Sched struct {
 	ex       *Exec
 	gs       []*Goroutine
@@ -31,6 +43,50 @@ type Sched struct {
 	abort    interface{}
 	mainWake chan bool
 	log      []string
+	pointID  string          // overrides the position of the next scheduling point (goroutine spawn)
+	points   map[string]bool // every scheduling point visited (file:line)
+	occ      map[string]int  // goroutine|point -> visits
+	switches []SchedSwitch
+}
+
+// here returns the innermost position of the current goroutine that lies in the repository tree
+// (scheduling points inside std code are attributed to their repo call site).
+func (s *Sched) here() string {
+	for f := s.ex.curFrame; f != nil; f = f.caller {
+		if !f.pos.IsValid() {
+			continue
+		}
+		ps := s.ex.fset.Position(f.pos)
+		if i := strings.Index(ps.Filename, "/repo/"); i >= 0 {
+			return fmt.Sprintf("%s:%d", ps.Filename[i+6:], ps.Line)
+		}
+	}
+	return ""
+}
+
+// visit records that the current goroutine passed a scheduling point and returns (point, occurrence).
+func (s *Sched) visit() (string, int) {
+	at := s.here()
+	if s.pointID != "" {
+		at = s.pointID
+	}
+	if at == "" {
+		return "", 0
+	}
+	if s.points == nil {
+		s.points = map[string]bool{}
+		s.occ = map[string]int{}
+	}
+	s.points[at] = true
+	k := s.cur.name + "|" + at
+	s.occ[k]++
+	return at, s.occ[k]
+}
+
+func (s *Sched) logSwitch(at string, occ int, next *Goroutine, kind string) {
+	if s.symbolic {
+		s.switches = append(s.switches, SchedSwitch{G: s.cur.name, At: at, Occ: occ, Next: next.name, Kind: kind})
+	}
 }
 
 func newSched(ex *Exec, main *Goroutine) *Sched {
@@ -76,6 +132,7 @@ func (s *Sched) spawn(fv *FuncV, args []Value, site ssa.Instruction) {
 				main.wake <- true
 				return
 			}
+			s.logSwitch("", 0, next, "end")
 			s.cur = next
 			s.ex.curFrame = next.frame
 			next.wake <- true
@@ -84,7 +141,9 @@ func (s *Sched) spawn(fv *FuncV, args []Value, site ssa.Instruction) {
 		s.ex.curFrame = nil
 		s.ex.callValue(fv, args, site)
 	}()
+	s.pointID = "spawn:" + g.name
 	s.point()
+	s.pointID = ""
 }
 
 func (s *Sched) runnable(g *Goroutine) bool {
@@ -156,11 +215,17 @@ func (s *Sched) block(ready func() bool) {
 	for !ready() {
 		me := s.cur
 		me.ready = ready
+		at, occ := "", 0
+		if s.symbolic {
+			at = s.here()
+			occ = s.occ[s.cur.name+"|"+at] // the visit was counted by the point() that precedes the blocking operation
+		}
 		next := s.pickNext(true)
 		if next == nil {
 			s.deadlock()
 			panic(pathEnd{"deadlock"})
 		}
+		s.logSwitch(at, occ, next, "block")
 		s.switchTo(next)
 		me.ready = nil
 	}
@@ -176,7 +241,11 @@ func (s *Sched) yield() {
 
 // point is a scheduling point: in schedule-symbolic mode the executor may preempt here.
 func (s *Sched) point() {
-	if s == nil || !s.symbolic || s.preempt <= 0 || len(s.gs) == 1 {
+	if s == nil || !s.symbolic {
+		return
+	}
+	at, occ := s.visit()
+	if s.preempt <= 0 || len(s.gs) == 1 {
 		return
 	}
 	var cands []*Goroutine
@@ -193,6 +262,7 @@ func (s *Sched) point() {
 		return
 	}
 	s.preempt--
+	s.logSwitch(at, occ, cands[k-1], "preempt")
 	s.switchTo(cands[k-1])
 }
 
